@@ -7,6 +7,7 @@
 -/
 import Model.CoreClose
 import Model.Proto.ReqClose
+import Model.Proto.RepClose
 import Model.Proto.CommonLemmas
 import Model.Proto.Pair
 import Model.Proto.Push
@@ -453,6 +454,19 @@ theorem req_parked_calls_have_open_contexts (s : Req.State) (hs : Req.Reach s) :
     (∀ p ∈ s.parkedSend, ∃ x ∈ s.ctxs, x.id = p.ctx ∧ x.closed = false) ∧
     (∀ p ∈ s.parkedRecv, ∃ x ∈ s.ctxs, x.id = p.ctx ∧ x.closed = false ∧ x.receiveWait = true) :=
   ⟨fun p hp => (Req.reach_K s hs).slive p hp (by simp), fun p hp => (Req.reach_K s hs).rlive p hp (by simp)⟩
+
+/-- cooked REP / RESPONDENT: in every reachable state of an open socket, Close leaves no Recv and no Send parked on
+    any context and marks the socket closed (from the invariant `Rep.L` over all histories: every parked call belongs
+    to an open context) -/
+theorem rep_close_wakes_all (f : Rep.Flavor) (site : HopSite) (s : Rep.State) (hs : Rep.Reach f site s)
+    (hk : s.flavor.cooked = true) (hopen : s.closed = false) :
+    ∀ o ∈ Rep.step s ["close"], o.1.closed = true ∧ o.1.waiting = [] ∧ o.1.parkedSend = [] :=
+  Rep.close_wakes_all f site s hs hk hopen
+
+/-- … and closing one context leaves nothing parked on it -/
+theorem rep_closectx_clears (s : Rep.State) (c : Nat) :
+    (∀ w ∈ (Rep.closeCtx s c).1.waiting, w.1 ≠ c) ∧ (∀ p ∈ (Rep.closeCtx s c).1.parkedSend, p.ctx ≠ c) :=
+  Rep.closeCtx_clears s c
 
 example : Req.Reach Req.init ∧ Req.init.closed = false := ⟨.init, rfl⟩
 
